@@ -83,17 +83,14 @@ var c12Aggs = []string{"day", "week", "month", "quarter", "year"}
 
 func c12Count(tier fw.Tier) []int {
 	n := len(c12Dates())
-	if tier == fw.Thorough {
-		return []int{n * n, n * n * n, 80}
-	}
-	return []int{n * n, 0, 80}
+	return []int{n * n, n * n * n, 80}
 }
 
 func init() {
 	fw.Register(&fw.Check{
 		ID:    "C12",
 		Title: "All evaluation views partition the same total",
-		Rule: "files of 2 (quick: all ordered pairs) and 3 (thorough: all ordered triples) records dated from a " + fmt.Sprint(len(c12Dates())) + "-date calendar-boundary set (week-year edges of 52/53-week years, leap days, month/quarter/year ends, years 0000/0001/0999/1000/9998/9999), " +
+		Rule: "files of 2 (all ordered pairs) and 3 (quick: a fixed quarter of the ordered triples, thorough: all) records dated from a " + fmt.Sprint(len(c12Dates())) + "-date calendar-boundary set (week-year edges of 52/53-week years, leap days, month/quarter/year ends, years 0000/0001/0999/1000/9998/9999), " +
 			"in file order as enumerated (unsorted, descending and duplicate dates occur); record i carries a total of 2^i minutes (so a row total identifies exactly which records it contains), a should-total and, in a variant, a negative total; " +
 			"x aggregation {day, week, month, quarter, year} x {plain, --fill (span <= 800 days), --diff, --fill --diff} x date filter {none, --since/--until, --period}; plus 80 today/--now documents. " +
 			"A case = (file, report flags); non-trivial = at least one row; distinct by hash(text, flags).",
@@ -101,15 +98,18 @@ func init() {
 			"independent bucketing by the specmodel calendar; rows are read back from `klog report --decimal --no-style` by fixed label columns (year, month, weekday/day, week, quarter) and by the '=' ruler for value columns",
 			"the command struct cli.Report runs on the real context for every case; every 50th case also through klog.Run with real flag decoding; `klog total` and `klog today` through klog.Run",
 		},
-		Units: func(t fw.Tier) int { return len(planSpans(c12Count(t), 400)) },
+		Units: func(t fw.Tier) int { return len(planSpans(c12Count(t), 1600)) },
 		RunUnit: func(c *fw.Ctx, unit int) {
-			sp := planSpans(c12Count(c.Tier), 400)[unit]
+			sp := planSpans(c12Count(c.Tier), 1600)[unit]
 			for i := sp.lo; i < sp.hi; i++ {
 				switch sp.fam {
 				case 0:
 					c12Doc(c, "pairs", i, 2)
 				case 1:
-					c12Doc(c, "triples", i, 3)
+					// quick: every triple whose index digits sum to a multiple of 4 (a fixed quarter); thorough: all
+					if c.Tier == fw.Thorough || c12DigitSum(i)%4 == 0 {
+						c12Doc(c, "triples", i, 3)
+					}
 				default:
 					c12Today(c, i)
 				}
@@ -133,6 +133,11 @@ func init() {
 			}
 		},
 	})
+}
+
+func c12DigitSum(i int) int {
+	n := len(c12Dates())
+	return i%n + (i/n)%n + (i/n/n)%n
 }
 
 type c12Rec struct {
